@@ -140,6 +140,9 @@ pub trait ADNum: Clone + Sized {
     fn real(&self) -> f64;
     fn var_names(&self) -> Vec<String>;
     fn describe(&self) -> Value;
+    fn rem(a: &Self, b: &Self) -> Self;
+    fn equals(a: &Self, b: &Self) -> bool;
+    fn same_arc(a: &Self, b: &Self) -> bool;
 }
 
 macro_rules! binop {
@@ -213,6 +216,15 @@ macro_rules! impl_common {
         }
         fn real(&self) -> f64 {
             self.real()
+        }
+        fn rem(a: &Self, b: &Self) -> Self {
+            a % b
+        }
+        fn equals(a: &Self, b: &Self) -> bool {
+            a == b
+        }
+        fn same_arc(a: &Self, b: &Self) -> bool {
+            a.ptr_eq(b)
         }
         fn var_names(&self) -> Vec<String> {
             self.vars().iter().cloned().collect()
